@@ -53,6 +53,10 @@ def _setk(eng, st, args, kw, node):
     yield st, SetK(args[0])
 
 
+def _mapk(eng, st, args, kw, node):
+    yield st, Map(args[0], args[1])
+
+
 def _ite(eng, st, args, kw, node):
     c, a, b = args
     yield st, V(a.kind, z3.If(eng.truth(c, st), a.term, eng.coerce(b, a.kind, st).term))
@@ -107,6 +111,7 @@ def default_names():
     return {
         "STR": STR, "INT": INT, "BOOL": BOOL, "REAL": REAL,
         "Ref": handler(_ref, "Ref"), "SeqOf": handler(_seq, "SeqOf"), "SetOf": handler(_setk, "SetOf"),
+        "MapOf": handler(_mapk, "MapOf"),
         "wf_map": handler(_wf_map, "wf_map"), "keys_of": handler(_keys_of, "keys_of"),
         "ite": handler(_ite, "ite"), "allocated": handler(_allocated, "allocated"),
         "str_is_int": handler(_str_is_int, "str_is_int"), "str_int": handler(_str_int, "str_int"),
